@@ -285,34 +285,60 @@ func c03Verifier(c *Ctx, r *Report, fn, crc *ssa.Function, control bool) map[str
 		report(false, "first parameter is not a byte slice", "", "shape", c.pos(fn.Pos()))
 		return fired
 	}
-	// the CRC call on data[0:len-2]
-	var crcv *Aff
+	// CRC calls on a prefix data[0:X] of the input; the guard is LE16(data[X:X+2]) == that CRC
+	// together with X == len-2 (X may be spelled as a constant under a length test)
+	type crcEq struct {
+		eq Atom
+		x  Aff
+	}
+	var eqs []crcEq
 	for _, uc := range an.ucalls {
-		if a, isS := uc.args[0].(ASlice); isS && a.root == data.root && a.off.isConst() && a.off.c == 0 && a.ln.equal(data.ln.addc(-2)) {
+		if a, isS := uc.args[0].(ASlice); isS && a.root == data.root && a.off.isConst() && a.off.c == 0 {
 			if v, ok := uc.res.(AInt); ok {
-				crcv = &v.a
+				eqs = append(eqs, crcEq{atomEQ(fr.frameBytes(data, a.ln, 2, false), v.a), a.ln})
 			}
 		}
 	}
-	if crcv == nil {
-		report(false, "no CRC16 call on data[0:len-2]", "", "no-crc-call", c.pos(fn.Pos()))
+	if len(eqs) == 0 {
+		report(false, "no CRC16 call on a prefix of the input", "", "no-crc-call", c.pos(fn.Pos()))
 		return fired
 	}
-	trailer := fr.frameBytes(data, data.ln.addc(-2), 2, false)
-	eq := atomEQ(trailer, *crcv)
+	guardedBy := func(st DNF) bool {
+		if len(st) == 0 {
+			return true
+		}
+		for _, e := range eqs {
+			if st.entails(e.eq) && st.entails(atomEQ(e.x, data.ln.addc(-2))) {
+				return true
+			}
+		}
+		return false
+	}
+	eq := eqs[0].eq
+	if !fr.blockIn[0].entails(atomEQ(eqs[0].x, eqs[0].x)) {
+		_ = eq
+	}
 	nres := fn.Signature.Results().Len()
 	for _, rs := range fr.returns {
 		pos := c.pos(rs.instr.Pos())
 		errNil := fr.nilness(rs.vals[nres-1])
 		valNil := fr.nilOrNilPtr(rs.vals[0])
-		guarded := rs.state.entails(eq)
+		guarded := guardedBy(rs.state)
 		rejecting := errNil.kind == fConst && !errNil.b && valNil.kind == fConst && valNil.b
+		if nres == 1 {
+			// a recogniser: nil means "nothing recognised" and carries no content
+			rejecting = false
+			if errNil.kind == fConst && errNil.b {
+				report(true, "returns nil (no content)", "", "", pos)
+				continue
+			}
+		}
 		switch {
 		case guarded:
 			report(true, "return is reached only when the little-endian trailer equals CRC16(data[0:len-2])", "", "", pos)
 		case rejecting:
 			// wrapper's own rejection: must be impossible for a long-enough frame with a matching CRC
-			in := dnfAnd(rs.state, DNF{Conj{eq, atomGE(data.ln, affConst(4))}})
+			in := dnfAnd(rs.state, DNF{Conj{eq, atomEQ(eqs[0].x, data.ln.addc(-2)), atomGE(data.ln, affConst(4))}})
 			feas := false
 			for _, cj := range in {
 				if !infeasible(cj) {
@@ -339,7 +365,7 @@ func c03Verifier(c *Ctx, r *Report, fn, crc *ssa.Function, control bool) map[str
 			continue
 		}
 		st := fr.stateAt[call.(ssa.Instruction)]
-		report(st.entails(eq), "inner parser "+ch.fn.Name()+" is only called after the CRC equality", truncate(st.String(), 300), "inner-call-unguarded", c.pos(call.Pos()))
+		report(guardedBy(st), "inner parser "+ch.fn.Name()+" is only called after the CRC equality", truncate(st.String(), 300), "inner-call-unguarded", c.pos(call.Pos()))
 	}
 	_ = strings.TrimSpace
 	return fired
@@ -414,7 +440,7 @@ func init() {
 		v1 := c03Verifier(c, r, c.fnMust("c03", "VerifyButIgnore"), crc, true)
 		r.controls["C03/R3.2-unguarded"] = v1["unguarded-return"] || v1["inner-call-unguarded"]
 		v2 := c03Verifier(c, r, c.fnMust("c03", "VerifyWrongRange"), crc, true)
-		r.controls["C03/R3.2-wrong-range"] = v2["no-crc-call"]
+		r.controls["C03/R3.2-wrong-range"] = v2["no-crc-call"] || v2["unguarded-return"] || v2["inner-call-unguarded"]
 		r.controls["C03/R3.0-coverage"] = c03Coverage(c, nil, c.fnMust("c03", "CRCSkipsLast"))["coverage"]
 		if c03Coverage(c, nil, crc)["coverage"] {
 			r.controls["C03/R3.0-negative-control"] = false
